@@ -42,6 +42,32 @@ typedef vh_m128d __m128d;
 #define _mm_aesenc_si128 vhm_mm_aesenc_si128
 #define _mm_aesenclast_si128 vhm_mm_aesenclast_si128
 #define _mm_aeskeygenassist_si128 vhm_mm_aeskeygenassist_si128
+#define _mm_and_si128 vhm_mm_and_si128
+#define _mm_andnot_si128 vhm_mm_andnot_si128
+#define _mm_sub_epi32 vhm_mm_sub_epi32
+#define _mm_add_epi64 vhm_mm_add_epi64
+#define _mm_add_epi16 vhm_mm_add_epi16
+#define _mm_add_epi8 vhm_mm_add_epi8
+#define _mm_srai_epi32 vhm_mm_srai_epi32
+#define _mm_srai_epi16 vhm_mm_srai_epi16
+#define _mm_slli_epi64 vhm_mm_slli_epi64
+#define _mm_setzero_si128 vhm_mm_setzero_si128
+#define _mm_set1_epi32 vhm_mm_set1_epi32
+#define _mm_set1_epi8 vhm_mm_set1_epi8
+#define _mm_setr_epi32 vhm_mm_setr_epi32
+#define _mm_cvtsi32_si128 vhm_mm_cvtsi32_si128
+#define _mm_cvtsi128_si32 vhm_mm_cvtsi128_si32
+#define _mm_unpacklo_epi32 vhm_mm_unpacklo_epi32
+#define _mm_unpackhi_epi32 vhm_mm_unpackhi_epi32
+#define _mm_cmpeq_epi32 vhm_mm_cmpeq_epi32
+#define _mm_cmpeq_epi8 vhm_mm_cmpeq_epi8
+#define _mm_movemask_epi8 vhm_mm_movemask_epi8
+#define _mm_extract_epi32 vhm_mm_extract_epi32
+#define _mm_insert_epi32 vhm_mm_insert_epi32
+#define _mm_blend_epi16 vhm_mm_blend_epi16
+#define _mm_load_si128(p) vhm_mm_loadu_si128((const void *)(p))
+#define _mm_store_si128(p, a) vhm_mm_storeu_si128((void *)(p), a)
+#define _mm_loadl_epi64(p) vhm_mm_loadu_si64((const void *)(p))
 /* RDRAND: hardware randomness = nondeterministic value and success flag (provided by the harness when used) */
 int vhm_rdrand32_step(unsigned int *);
 #define _rdrand32_step vhm_rdrand32_step
